@@ -340,6 +340,19 @@ func ruleVersionNegotiation(c *Ctx) {
 		return
 	}
 	rangeN := g.NodeOf(outer.X)
+	// the ranged variable may be a plain copy of the list that was built and
+	// sorted (`tmp := list` as left by helper inlining): follow it
+	for i := 0; i < 3; i++ {
+		d := p.singleDef(f, sv)
+		if d == nil {
+			break
+		}
+		src, ok := identObj(info, ast.Unparen(d)).(*types.Var)
+		if !ok || src.IsField() {
+			break
+		}
+		sv = src
+	}
 	// (2) sorted descending at the loop head
 	var sortN *Node
 	for _, call := range f.Calls() {
@@ -399,6 +412,18 @@ func ruleVersionNegotiation(c *Ctx) {
 				}
 				if nm == "slices.Reverse" {
 					s2 = g.NodeOf(call)
+				}
+			}
+		}
+		// list := slices.Sorted(seq) is an ascending sort by definition
+		if s1 == nil {
+			for _, m := range g.Nodes {
+				as, ok := m.Ast.(*ast.AssignStmt)
+				if !ok || len(as.Lhs) != 1 || len(as.Rhs) != 1 || identObj(info, as.Lhs[0]) != sv {
+					continue
+				}
+				if call, ok := ast.Unparen(as.Rhs[0]).(*ast.CallExpr); ok && p.CalleeName(f, call) == "slices.Sorted" {
+					s1 = m
 				}
 			}
 		}
